@@ -15,7 +15,7 @@ from ..util import (has_call, find_calls, assigned_value, const_str, unparse, kw
 from ..util import clone
 from .. import mutate as M
 
-TECHNIQUE = 'static analysis: interface completeness over the class hierarchy, key-set agreement (len/iter == keys expression), load-once typestate, purity of accessors, sibling decode-guard agreement, producer/consumer marker agreement, statelessness of row filters'
+TECHNIQUE = 'static analysis: interface completeness over the class hierarchy, key-set agreement (len/iter == keys expression), load-once typestate, purity of accessors, sibling decode-guard agreement, producer/consumer marker agreement, statelessness of row filters, len/iter source agreement with construction-site provenance of stored lengths, alias-mutation rule for accessors, equality/copy/truthiness computed from visible contents'
 
 EXPLANATION = ("Family rules over every subclass of Dense_/Sparse_ (computed): required methods present; every self "
                "attribute that keys() combines into the key set is also used by __len__, __iter__ and items (or they "
@@ -53,6 +53,7 @@ def run(ctx):
     r17_categorical_expansion(ctx)
     r18_equality_by_contents(ctx)
     r19_len_iter_agreement(ctx)
+    r20_truthiness(ctx)
 
 
 def r1_complete(ctx, dense, sparse):
@@ -146,9 +147,11 @@ def r3_load_once(ctx, classes):
     ctx.floor("C13.R3", "lazy loader instances", n, 6)
 
 
-def r4_purity(ctx, classes):
-    ctx.rule("C13.R4", "accessor methods of row classes write no self state (the only write is the load-once memo)")
+def r4_purity(ctx, classes=None, rule="C13.R4"):
+    ctx.rule(rule, "accessor methods of row classes write no self state (the only write is the load-once memo)")
     n = 0
+    if classes is None:
+        classes = ctx.model.subclasses(ctx.model.cls(PRIM, "Dense_")) + ctx.model.subclasses(ctx.model.cls(PRIM, "Sparse_"))
     for c in classes:
         for mname, fn in c.methods.items():
             if mname in ("__init__", "__setitem__", "copy", "__setstate__"):
@@ -164,16 +167,16 @@ def r4_purity(ctx, classes):
                     continue
                 if isinstance(x, ast.AugAssign) and isinstance(x.target, ast.Name) and x.target.id in alias:
                     n += 1
-                    ctx.ob("C13.R4", c.rel, f"{c.qual}.{mname}", x, f"no access mutates the view's own state (`{x.target.id}` is {unparse(alias[x.target.id])} itself, the operator works in place)", False)
+                    ctx.ob(rule, c.rel, f"{c.qual}.{mname}", x, f"no access mutates the view's own state (`{x.target.id}` is {unparse(alias[x.target.id])} itself, the operator works in place)", False)
                 if isinstance(x, ast.Call) and isinstance(x.func, ast.Attribute) and isinstance(x.func.value, ast.Name) and x.func.value.id in alias \
                         and x.func.attr in ("append", "pop", "update", "clear", "extend", "remove", "insert", "setdefault", "add", "discard", "sort", "popitem", "reverse"):
                     n += 1
-                    ctx.ob("C13.R4", c.rel, f"{c.qual}.{mname}", x, f"no access mutates the view's own state (`{x.func.value.id}` is {unparse(alias[x.func.value.id])} itself)", False)
+                    ctx.ob(rule, c.rel, f"{c.qual}.{mname}", x, f"no access mutates the view's own state (`{x.func.value.id}` is {unparse(alias[x.func.value.id])} itself)", False)
                 if isinstance(x, (ast.Assign, ast.Delete)):
                     for t in x.targets:
                         if isinstance(t, ast.Subscript) and isinstance(t.value, ast.Name) and t.value.id in alias:
                             n += 1
-                            ctx.ob("C13.R4", c.rel, f"{c.qual}.{mname}", x, f"no access mutates the view's own state (`{t.value.id}` is {unparse(alias[t.value.id])} itself)", False)
+                            ctx.ob(rule, c.rel, f"{c.qual}.{mname}", x, f"no access mutates the view's own state (`{t.value.id}` is {unparse(alias[t.value.id])} itself)", False)
             for x in walk_shallow(fn):
                 targets = []
                 if isinstance(x, ast.Assign):
@@ -189,12 +192,12 @@ def r4_purity(ctx, classes):
                     if is_self_attr(base):
                         n += 1
                         ok = mname == "_load_or_get" and base.attr == "_row"
-                        ctx.ob("C13.R4", c.rel, f"{c.qual}.{mname}", x, "no access changes what later accesses return", ok)
+                        ctx.ob(rule, c.rel, f"{c.qual}.{mname}", x, "no access changes what later accesses return", ok)
                 if isinstance(x, ast.Call) and isinstance(x.func, ast.Attribute) and x.func.attr in ("append", "pop", "update", "clear", "extend", "remove", "insert", "setdefault", "add") \
                         and is_self_attr(x.func.value):
                     n += 1
-                    ctx.ob("C13.R4", c.rel, f"{c.qual}.{mname}", x, "no access mutates the view's own state", False)
-    ctx.floor("C13.R4", "self-state writes in row accessors", n, 2)
+                    ctx.ob(rule, c.rel, f"{c.qual}.{mname}", x, "no access mutates the view's own state", False)
+    ctx.floor(rule, "self-state writes in row accessors", n, 2)
 
 
 def r5_no_silent_none(ctx, classes):
@@ -612,6 +615,21 @@ def r18_equality_by_contents(ctx, rule="C13.R18"):
                        for t, pol in guards_of(r, eq))
             ctx.ob(rule, rel, f"{cname}.__eq__", r, "a result that can be true is computed from the contents of the view (or the other object IS this one)", reads or same, detail={"returns": unparse(v)[:100]})
     ctx.floor(rule, "__eq__ methods of row classes", n, 2)
+    # copies of the generic bases: what a view shows, not what it wraps (KeepDense over a list would give the dropped columns back, EncodeDense the raw strings)
+    for cname in ("Dense_", "Sparse_"):
+        cp = ctx.model.cls(PRIM, cname).methods.get("copy")
+        if cp is None:
+            continue
+        SELF = cp.args.args[0].arg
+        for r in [x for x in ast.walk(cp) if isinstance(x, ast.Return) and x.value is not None]:
+            reads = [x for x in ast.walk(r.value) if (isinstance(x, ast.Name) and x.id == SELF and not isinstance(parent(x), ast.Attribute))
+                     or (isinstance(x, ast.Call) and isinstance(x.func, ast.Attribute) and isinstance(x.func.value, ast.Name) and x.func.value.id == SELF and x.func.attr in ("items", "keys", "values"))]
+            wrapped = [x for x in ast.walk(r.value) if isinstance(x, ast.Attribute) and isinstance(x.value, ast.Name) and x.value.id == SELF and x.attr not in ("items", "keys", "values")]
+            locs = {t.id for st in walk_shallow(cp) if isinstance(st, ast.Assign) and any(isinstance(y, ast.Attribute) and isinstance(y.value, ast.Name) and y.value.id == SELF for y in ast.walk(st.value))
+                    for t in st.targets if isinstance(t, ast.Name)}
+            via_local = [x for x in ast.walk(r.value) if isinstance(x, ast.Name) and x.id in locs]
+            ctx.ob(rule, PRIM, f"{cname}.copy", r, "the copy of a view is built from what the view shows (its iteration / items), never from the object it wraps", bool(reads) and not wrapped and not via_local,
+                   detail={"returns": unparse(r.value)[:100]})
 
 
 def r19_len_iter_agreement(ctx, rule="C13.R19"):
@@ -733,6 +751,26 @@ def _stored_length_is_selector_count(ctx, cname, methods, attr, comp):
                                          and unparse(x.args[0].args[1]) == SL and unparse(x.args[0].args[0]).startswith("range(len(")) for x in xdefs):
                     return False
     return True
+
+
+def r20_truthiness(ctx, rule="C13.R20"):
+    """`if not context`, `context or []`, `if not values: return []` (InteractionsEncoder._pows): a row is falsy exactly when it is empty.  Without __bool__ python uses
+    __len__; a __bool__ that looks at the wrapped object is wrong for every view whose storage is elsewhere (SparseDense keeps None in _row)."""
+    ctx.rule(rule, "the truth value of a row view is `len(view) > 0`: no row class (nor Dense_ / Sparse_) defines __bool__ other than through len(self)")
+    n = 0
+    sites = [(PRIM, "Dense_"), (PRIM, "Sparse_")] + [(ROWS, c.name) for c in ast.walk(ctx.model.modules[ROWS].tree) if isinstance(c, ast.ClassDef)]
+    for rel, cname in sites:
+        c = ctx.model.cls(rel, cname)
+        n += 1
+        b_ = c.methods.get("__bool__")
+        if b_ is None:
+            ctx.ob(rule, rel, cname, c.node, "truthiness falls back to __len__", True, trivial=True, stmt=f"{cname}: no __bool__")
+            continue
+        SELF = b_.args.args[0].arg
+        rets = [r.value for r in walk_shallow(b_) if isinstance(r, ast.Return) and r.value is not None]
+        ok = bool(rets) and all(canon(unparse(v)) in (canon(f"len({SELF}) > 0"), canon(f"bool(len({SELF}))"), canon(f"len({SELF}) != 0"), canon(f"0 < len({SELF})")) for v in rets)
+        ctx.ob(rule, rel, f"{cname}.__bool__", b_, "__bool__ answers from len(self)", ok, detail={"returns": [unparse(v) for v in rets]})
+    ctx.floor(rule, "row classes examined for __bool__", n, 12)
 
 
 def _empty_marker(tree):
@@ -903,6 +941,8 @@ def _unguarded_fast_iter(tree):
 
 
 CONTROLS = [
+    ("Dense_.copy copies the wrapped list", PRIM, M.replace_stmt("Dense_.copy", lambda st: isinstance(st, ast.Return), "return self._row.copy() if self._row.__class__ is list else list(iter(self))"), "C13.R18"),
+    ("Dense_ is falsy when what it wraps is", PRIM, M.insert_before("Dense_.__eq__", lambda st: True, "pass") if False else (lambda tree: _add_method(tree, "Dense_", "def __bool__(self):\n    return bool(self._row)")), "C13.R20"),
     ("HeadDense measures its header map", ROWS, M.replace_expr("HeadDense.__len__", "len(self._row)", "len(self.headers)"), "C13.R19"),
     ("kept length computed from the size of the drop list", ROWS, M.replace_expr("DropRows.make_drop_row_args", "len(indexes)", "len(first) - len(drop_cols)"), "C13.R19"),
     ("EncodeSparse.keys grows the shared not-sparse set through an alias", ROWS, M.replace_stmt("EncodeSparse.keys", lambda st: isinstance(st, ast.Return), "keys = self._nsp\nkeys |= self._row.keys()\nreturn keys"), "C13.R4"),
@@ -938,6 +978,15 @@ CONTROLS = [
     ("LabelSparse silent None", ROWS, M.replace_stmt("LabelSparse.__getitem__", M.simple_has("raise"), "pass"), "C13.R5"),
     ("label reads other index", ROWS, M.replace_expr("LabelDense.label", "self._row[self._ind]", "self._row[-1]"), "C13.R6"),
 ]
+
+
+def _add_method(tree, cls, src):
+    for c in ast.walk(tree):
+        if isinstance(c, ast.ClassDef) and c.name == cls:
+            c.body.append(ast.parse(src).body[0])
+            ast.fix_missing_locations(tree)
+            return tree
+    raise M.TargetMissing(f"class {cls}")
 
 
 def _remove_method(tree, cls, name):
